@@ -1,0 +1,70 @@
+//! Verification hooks. Compiled only with `--cfg qwt_verif`; they add observability and
+//! replayability for the Huffman-shaped trees and change nothing when the cfg is off.
+//!
+//! * a *tie-break seed*: the order in which `craft_wm_codes` enumerates symbols of equal
+//!   code length normally follows the iteration order of a randomly seeded `HashMap`.
+//!   With a seed set, that order becomes a deterministic function of `(seed, symbol)`,
+//!   so that tie orders can be enumerated and a failure replayed;
+//! * *record / force code lengths*: the code lengths chosen by `minimum_redundancy`
+//!   (which also breaks frequency ties by hash order) are recorded, and can be forced
+//!   to a recorded table, again for replay.
+
+use std::cell::{Cell, RefCell};
+use std::collections::HashMap;
+
+thread_local! {
+    static TIE_SEED: Cell<Option<u64>> = const { Cell::new(None) };
+    static FORCED_LENGTHS: RefCell<Option<Vec<(usize, u32)>>> = const { RefCell::new(None) };
+    static LAST_LENGTHS: RefCell<Vec<(usize, u32)>> = const { RefCell::new(Vec::new()) };
+}
+
+/// Sets (or clears) the seed that orders symbols of equal code length.
+pub fn set_tie_seed(seed: Option<u64>) {
+    TIE_SEED.with(|s| s.set(seed));
+}
+
+/// Forces the next constructions on this thread to use the given `(symbol, code length)` table
+/// instead of the one computed from the frequencies (or clears it).
+pub fn force_lengths(lengths: Option<Vec<(usize, u32)>>) {
+    FORCED_LENGTHS.with(|f| *f.borrow_mut() = lengths);
+}
+
+/// The `(symbol, code length)` table used by the last construction on this thread,
+/// sorted by symbol.
+pub fn last_lengths() -> Vec<(usize, u32)> {
+    LAST_LENGTHS.with(|l| l.borrow().clone())
+}
+
+pub(crate) fn lengths_hook(lengths: &mut HashMap<usize, u32>) {
+    FORCED_LENGTHS.with(|f| {
+        if let Some(forced) = f.borrow().as_ref() {
+            lengths.clear();
+            lengths.extend(forced.iter().copied());
+        }
+    });
+    let mut rec: Vec<(usize, u32)> = lengths.iter().map(|(&k, &v)| (k, v)).collect();
+    rec.sort_unstable();
+    LAST_LENGTHS.with(|l| *l.borrow_mut() = rec);
+}
+
+fn mix(seed: u64, symbol: usize) -> u64 {
+    let mut z = seed ^ (symbol as u64).wrapping_mul(0x9E37_79B9_7F4A_7C15);
+    z = (z ^ (z >> 30)).wrapping_mul(0xBF58_476D_1CE4_E5B9);
+    z = (z ^ (z >> 27)).wrapping_mul(0x94D0_49BB_1331_11EB);
+    z ^ (z >> 31)
+}
+
+/// Re-orders `f` (already sorted by code length) inside each class of equal length.
+/// `key` returns `(length, symbol)`.
+pub(crate) fn tie_break<E>(f: &mut [E], key: impl Fn(&E) -> (u32, usize)) {
+    let seed = TIE_SEED.with(|s| s.get());
+    let forced = FORCED_LENGTHS.with(|f| f.borrow().is_some());
+    if let Some(seed) = seed {
+        f.sort_by_key(|e| {
+            let (len, sym) = key(e);
+            (len, mix(seed, sym), sym)
+        });
+    } else if forced {
+        f.sort_by_key(|e| key(e));
+    }
+}
